@@ -247,6 +247,7 @@ type c03Req struct {
 	inner Request
 	run   *c03Run
 	min   int64
+	size  func(Request) int64 // size of a (helper-typed) request under the batcher's sizer; nil = item count
 }
 
 func (r *c03Req) ItemsCount() int { return r.inner.ItemsCount() }
@@ -265,11 +266,18 @@ func (r *c03Req) MergeSplit(ctx context.Context, maxSize int, szt RequestSizerTy
 	out := make([]Request, len(res))
 	ev := c03Ev{kind: "ms", first: other == nil, cur: cur, ids: req, failed: err != nil}
 	for i := range res {
-		out[i] = &c03Req{inner: res[i], run: r.run, min: r.min}
+		out[i] = &c03Req{inner: res[i], run: r.run, min: r.min, size: r.size}
 		ev.res = append(ev.res, c03ReqIDs(res[i]))
 	}
 	// default_batcher keeps the last result as the current batch iff it is smaller than min_size (items sizer)
-	if n := len(ev.res); n > 0 && int64(len(ev.res[n-1])) < r.min {
+	lastSize := func() int64 {
+		n := len(res)
+		if r.size != nil {
+			return r.size(res[n-1])
+		}
+		return int64(len(ev.res[n-1]))
+	}
+	if n := len(ev.res); n > 0 && lastSize() < r.min {
 		ev.keep = true
 	}
 	r.run.log(ev)
@@ -278,15 +286,16 @@ func (r *c03Req) MergeSplit(ctx context.Context, maxSize int, szt RequestSizerTy
 
 func (r *c03Req) OnError(err error) Request {
 	if h, ok := r.inner.(RequestErrorHandler); ok {
-		return &c03Req{inner: h.OnError(err), run: r.run, min: r.min}
+		return &c03Req{inner: h.OnError(err), run: r.run, min: r.min, size: r.size}
 	}
 	return r
 }
 
 type c03Enc struct {
-	sig int
-	run *c03Run
-	min int64
+	sig  int
+	run  *c03Run
+	min  int64
+	size func(Request) int64
 }
 
 func (e c03Enc) Marshal(req Request) ([]byte, error) {
@@ -298,7 +307,7 @@ func (e c03Enc) Unmarshal(b []byte) (Request, error) {
 	if err != nil {
 		return nil, err
 	}
-	return &c03Req{inner: r, run: e.run, min: e.min}, nil
+	return &c03Req{inner: r, run: e.run, min: e.min, size: e.size}, nil
 }
 
 type c03Built struct {
@@ -333,11 +342,27 @@ func c03Build(cs *c03Case, set exporter.Settings, run *c03Run, push func(ctx con
 		return &c03Built{e, func(ctx context.Context, ids []int) error { return e.ConsumeLogs(ctx, c03Logs(ids)) }}, nil
 	}
 	min := cs.cfg.minSize
+	// the bytes sizer of the signal's own settings, applied to the wrapped request
+	base := NewLogsQueueBatchSettings()
+	switch sig {
+	case c03SigTraces:
+		base = NewTracesQueueBatchSettings()
+	case c03SigMetrics:
+		base = NewMetricsQueueBatchSettings()
+	}
+	bytesOf := base.Sizers[RequestSizerTypeBytes]
+	var size func(Request) int64
+	if cs.cfg.sizer == "bytes" {
+		size = func(r Request) int64 { return bytesOf.Sizeof(r) }
+	}
 	qs := QueueBatchSettings{
-		Encoding: c03Enc{sig: sig, run: run, min: min},
+		Encoding: c03Enc{sig: sig, run: run, min: min, size: size},
 		Sizers: map[RequestSizerType]RequestSizer{
 			RequestSizerTypeRequests: NewRequestsSizer(),
 			RequestSizerTypeItems:    request.NewItemsSizer(),
+			RequestSizerTypeBytes: request.BaseSizer{SizeofFunc: func(r request.Request) int64 {
+				return bytesOf.Sizeof(r.(*c03Req).inner)
+			}},
 		},
 	}
 	opts = append([]Option{internal.WithQueueBatchSettings(qs)}, opts...)
@@ -345,7 +370,7 @@ func c03Build(cs *c03Case, set exporter.Settings, run *c03Run, push func(ctx con
 	switch sig {
 	case c03SigTraces:
 		e, err := NewTracesRequest(bg, set, func(_ context.Context, td ptrace.Traces) (Request, error) {
-			return &c03Req{inner: newTracesRequest(td), run: run, min: min}, nil
+			return &c03Req{inner: newTracesRequest(td), run: run, min: min, size: size}, nil
 		}, consume, opts...)
 		if err != nil {
 			return nil, err
@@ -353,7 +378,7 @@ func c03Build(cs *c03Case, set exporter.Settings, run *c03Run, push func(ctx con
 		return &c03Built{e, func(ctx context.Context, ids []int) error { return e.ConsumeTraces(ctx, c03Traces(ids)) }}, nil
 	case c03SigMetrics:
 		e, err := NewMetricsRequest(bg, set, func(_ context.Context, md pmetric.Metrics) (Request, error) {
-			return &c03Req{inner: newMetricsRequest(md), run: run, min: min}, nil
+			return &c03Req{inner: newMetricsRequest(md), run: run, min: min, size: size}, nil
 		}, consume, opts...)
 		if err != nil {
 			return nil, err
@@ -361,7 +386,7 @@ func c03Build(cs *c03Case, set exporter.Settings, run *c03Run, push func(ctx con
 		return &c03Built{e, func(ctx context.Context, ids []int) error { return e.ConsumeMetrics(ctx, c03Metrics(ids)) }}, nil
 	}
 	e, err := NewLogsRequest(bg, set, func(_ context.Context, ld plog.Logs) (Request, error) {
-		return &c03Req{inner: newLogsRequest(ld), run: run, min: min}, nil
+		return &c03Req{inner: newLogsRequest(ld), run: run, min: min, size: size}, nil
 	}, consume, opts...)
 	if err != nil {
 		return nil, err
@@ -420,6 +445,8 @@ type c03Case struct {
 	backend []c03Call
 	failSet   bool // storage starts failing plain Set writes just before Shutdown is called (size snapshot of an items-sized queue)
 	failClose bool // the storage client's Close fails (from just before Shutdown)
+	shutCtx   int           // context handed to Shutdown: 0 live, 1 cancelled during the drain, 2 deadline, 3 already done on entry
+	shutCtxD  time.Duration // … after this long
 }
 
 func (c *c03Cfg) options(host *component.Host, st *c03Storage) ([]Option, error) {
@@ -438,6 +465,9 @@ func (c *c03Cfg) options(host *component.Host, st *c03Storage) ([]Option, error)
 		q.WaitForResult = c.wfr
 		q.BlockOnOverflow = c.block
 		q.Sizer = request.SizerTypeRequests
+		if c.sizer == "bytes" {
+			q.Sizer = request.SizerTypeBytes
+		}
 		if c.sizer == "items" {
 			q.Sizer = request.SizerTypeItems
 		}
@@ -486,6 +516,7 @@ func c03Gen(c int) *c03Case {
 	rnd := vRand(c)
 	cs := &c03Case{}
 	cfg := &cs.cfg
+	bytesSized := false
 	overlap := false // several requests in flight at the shutdown: one in retry back-off, others finishing during the drain
 	splitty := false // requests larger than max_size: split over several flushes, remainder in the partial batch
 	cfg.queue = true
@@ -512,6 +543,7 @@ func c03Gen(c int) *c03Case {
 		if rnd.IntN(2) == 0 {
 			cfg.capacity = 10000
 		}
+		bytesSized = rnd.IntN(3) == 0 // queue and batcher sized in BYTES: merges and splits by encoded size
 	case 4: // memory queue + legacy batcher
 		cfg.batch = 2
 	case 5: // persistent queue
@@ -560,6 +592,15 @@ func c03Gen(c int) *c03Case {
 			cfg.maxSize = cfg.minSize + int64(3+rnd.IntN(10))
 		}
 	}
+	if bytesSized {
+		cfg.sizer = "bytes"
+		cfg.capacity = []int64{4000, 1000000}[rnd.IntN(2)]
+		cfg.minSize = []int64{0, 80, 300}[rnd.IntN(3)]
+		cfg.maxSize = 0
+		if rnd.IntN(2) == 0 {
+			cfg.maxSize = cfg.minSize + int64(200+rnd.IntN(300))
+		}
+	}
 	if splitty {
 		cfg.minSize = int64(2 + rnd.IntN(3))
 		cfg.maxSize = cfg.minSize + int64(rnd.IntN(2))
@@ -592,6 +633,9 @@ func c03Gen(c int) *c03Case {
 		cfg.timeout = []time.Duration{0, 2 * time.Second}[rnd.IntN(2)]
 	}
 	cfg.signal = []int{c03SigLogs, c03SigLogs, c03SigTraces, c03SigMetrics}[rnd.IntN(4)]
+	if bytesSized && cfg.signal == c03SigMetrics && cfg.maxSize > 0 {
+		cfg.signal = c03SigTraces // bytes split of metrics has open C04 findings (empty fragments); merges of metrics stay
+	}
 	cfg.wrap = rnd.IntN(4) != 0 || cfg.batch != 0 // batching: always observable, so that every returned trace is replayed through the LTS
 	// actions
 	nSend := 1 + rnd.IntN(12)
@@ -644,6 +688,10 @@ func c03Gen(c int) *c03Case {
 		// at random (one more attempt may start; with a queue Shutdown waits for it, without one it begins after the return) —
 		// scheduler-dependent, excluded like the ties of property C05
 		sd = t + time.Duration(1+rnd.IntN(2000))*time.Millisecond + 137*time.Microsecond + time.Nanosecond
+	}
+	if rnd.IntN(2) == 0 {
+		cs.shutCtx = 1 + rnd.IntN(3)
+		cs.shutCtxD = []time.Duration{time.Millisecond, 50 * time.Millisecond, time.Second, 2500 * time.Millisecond}[rnd.IntN(4)]
 	}
 	cs.acts = append(cs.acts, c03Act{at: sd, shutdown: true})
 	for i := 0; i < rnd.IntN(3) && !direct; i++ { // late sends (a Send after Shutdown of a queue-less exporter is the caller's export call)
@@ -767,6 +815,21 @@ func c03Corpus() []*c03Case {
 			acts: []c03Act{send(0, 1, 3), send(ms, 2, 3), sd(time.Second)}},
 		{cfg: c03Cfg{queue: true, persistent: true, sizer: "requests", capacity: 100, consumers: 1, batch: 2, flushTO: time.Second, minSize: 40, wrap: true}, failClose: true,
 			acts: []c03Act{send(0, 1, 3), sd(10 * ms)}},
+		// the context handed to Shutdown ends during a slow drain with a backlog (deadline / cancelled / already done): the drain and
+		// the join must not depend on it
+		{cfg: c03Cfg{queue: true, sizer: "requests", capacity: 100, consumers: 1}, shutCtx: 2, shutCtxD: 50 * ms,
+			acts:    []c03Act{send(0, 1, 2), send(0, 2, 2), send(0, 3, 2), send(0, 4, 2), sd(ms)},
+			backend: []c03Call{{3 * time.Second, 0}, {3 * time.Second, 1}, {3 * time.Second, 0}, {100 * ms, 2}}},
+		{cfg: c03Cfg{queue: true, sizer: "requests", capacity: 100, consumers: 2, retry: true, initial: 100 * ms}, shutCtx: 3,
+			acts:    []c03Act{send(0, 1, 2), send(0, 2, 2), send(0, 3, 2), send(0, 4, 2), send(0, 5, 1), sd(ms)},
+			backend: []c03Call{{3 * time.Second, 0}, {3 * time.Second, 1}, {3 * time.Second, 0}, {100 * ms, 2}}},
+		{cfg: c03Cfg{queue: true, sizer: "items", capacity: 1000, consumers: 1, batch: 1, flushTO: time.Hour, minSize: 40, wrap: true}, shutCtx: 1, shutCtxD: ms,
+			acts: []c03Act{send(0, 1, 3), send(ms, 2, 3), sd(10 * ms)}, backend: []c03Call{{3 * time.Second, 0}}},
+		// queue and batcher sized in BYTES: two payloads merged (min not reached alone), then a split by max_size; the counters are items
+		{cfg: c03Cfg{queue: true, sizer: "bytes", capacity: 1000000, consumers: 1, batch: 1, flushTO: time.Second, minSize: 300, maxSize: 0, wrap: true},
+			acts: []c03Act{send(0, 1, 5), send(ms, 2, 7), send(2*ms, 3, 21), sd(5 * time.Second)}},
+		{cfg: c03Cfg{queue: true, sizer: "bytes", capacity: 1000000, consumers: 1, batch: 1, flushTO: time.Second, minSize: 80, maxSize: 300, wrap: true, signal: c03SigTraces},
+			acts: []c03Act{send(0, 1, 6), send(ms, 2, 30), sd(5 * time.Second)}, backend: []c03Call{{0, 0}, {0, 1}}},
 		// shutdown exactly when the flush timer fires
 		{cfg: c03Cfg{queue: true, sizer: "items", capacity: 10000, consumers: 1, batch: 1, flushTO: 30 * ms, minSize: 40},
 			acts: []c03Act{send(0, 1, 3), sd(30 * ms), send(30*ms, 2, 2)}, backend: []c03Call{{5 * ms, 0}}},
@@ -917,8 +980,30 @@ func c03Exec(cs *c03Case, set exporter.Settings, probe func(run *c03Run)) *c03Ru
 					st.failClose = cs.failClose
 					st.mu.Unlock()
 				}
+				// the context handed to Shutdown is a dimension of its own: the property does not make the drain conditional on it
+				sctx := bg
+				switch cs.shutCtx {
+				case 1:
+					c, cancel := context.WithCancel(bg)
+					sctx = c
+					go func() {
+						select {
+						case <-time.After(cs.shutCtxD):
+						case <-shutDone:
+						}
+						cancel()
+					}()
+				case 2:
+					c, cancel := context.WithTimeout(bg, cs.shutCtxD)
+					defer cancel()
+					sctx = c
+				case 3:
+					c, cancel := context.WithCancel(bg)
+					cancel()
+					sctx = c
+				}
 				run.log(c03Ev{kind: "shutreq"})
-				e := exp.Shutdown(bg)
+				e := exp.Shutdown(sctx)
 				run.log(c03Ev{kind: "shutret", failed: e != nil})
 				close(shutDone)
 				return
@@ -1284,9 +1369,9 @@ func c03D(d time.Duration) string { return strconv.FormatInt(int64(d), 10) }
 func c03EmitOps(out *vOut, idx int, cs *c03Case) {
 	c := cs.cfg
 	out.Linef("case %d", idx)
-	out.Linef("op cfg signal=%s wrap=%d queue=%d persistent=%d sizer=%s cap=%d consumers=%d wfr=%d block=%d batch=%d flush=%s min=%d max=%d retry=%d initial=%s maxelapsed=%s timeout=%s failset=%d failclose=%d",
+	out.Linef("op cfg signal=%s wrap=%d queue=%d persistent=%d sizer=%s cap=%d consumers=%d wfr=%d block=%d batch=%d flush=%s min=%d max=%d retry=%d initial=%s maxelapsed=%s timeout=%s failset=%d failclose=%d shutctx=%d shutctxd=%s",
 		c03SigName[c.signal], vB(c.wrap), vB(c.queue), vB(c.persistent), c.sizer, c.capacity, c.consumers, vB(c.wfr), vB(c.block), c.batch, c03D(c.flushTO), c.minSize, c.maxSize,
-		vB(c.retry), c03D(c.initial), c03D(c.maxElapsed), c03D(c.timeout), vB(cs.failSet), vB(cs.failClose))
+		vB(c.retry), c03D(c.initial), c03D(c.maxElapsed), c03D(c.timeout), vB(cs.failSet), vB(cs.failClose), cs.shutCtx, c03D(cs.shutCtxD))
 	for _, a := range cs.acts {
 		if a.shutdown {
 			out.Linef("op act %s shutdown", c03D(a.at))
@@ -1426,6 +1511,10 @@ func c03Emit(out *vOut, idx int, cs *c03Case, run *c03Run) {
 	}
 	if cs.failClose {
 		out.Linef("stat storage_close_fails_at_shutdown 1")
+	}
+	out.Linef("stat shutdown_ctx_%d 1", cs.shutCtx)
+	if c.sizer == "bytes" {
+		out.Linef("stat bytes_sized_batching 1")
 	}
 	for _, e := range run.evs {
 		if e.kind == "shutret" && e.failed {
